@@ -106,6 +106,22 @@ M('C13', 'pkesk-keeps-m-value', PK, "        self.ct = self.ct.encrypt(encrypter
 M('C13', 'seipd-returns-key', PK, "        self.ct = _encrypt(data, key, alg)\n        self.update_hlen()\n", "        self.ct = _encrypt(data, key, alg)\n        self.update_hlen()\n        return bytearray(key)\n", 'C13.3')
 T('C13', 'twin-pkesk-key-copied-for-sum', PK, "        m += self.int_to_bytes(sum(bytearray(symkey)) % 65536, 2)", "        octets = bytearray(symkey)\n        total = sum(octets)\n        m += self.int_to_bytes(total % 65536, 2)")
 
+T('C13', 'twin-source-passed-by-reference', PK, "        self.s2k.salt = bytearray(os.urandom(8))\n        esk = self.s2k.derive_key(passphrase)", "        self.s2k.salt = bytearray(_draw(8))\n        esk = self.s2k.derive_key(passphrase)",
+  more=[(PK, "class SKESessionKeyV4(SKESessionKey):\n", "def _draw(noctets, source=None):\n    return (source or os.urandom)(noctets) if source is not None else os.urandom(noctets)\n\n\nclass SKESessionKeyV4(SKESessionKey):\n")])
+M('C13', 'salt-default-argument', PK, "    def encrypt_sk(self, passphrase, sk):\n        # generate the salt and derive the key to encrypt sk with from it\n        self.s2k.salt = bytearray(os.urandom(8))",
+  "    def encrypt_sk(self, passphrase, sk, _salt=os.urandom(8)):\n        # generate the salt and derive the key to encrypt sk with from it\n        self.s2k.salt = bytearray(_salt)", 'C13.1')
+M('C13', 'class-level-prefix', PK, "    __ver__ = 1\n\n    def __init__(self):\n        super(IntegrityProtectedSKEDataV1, self).__init__()", "    __ver__ = 1\n    _prefix = SymmetricKeyAlgorithm.AES256.gen_iv()\n\n    def __init__(self):\n        super(IntegrityProtectedSKEDataV1, self).__init__()", 'C13.1')
+
+T('C13', 'twin-keyblob-chained-assign', FL, "        self.s2k.iv = enc_alg.gen_iv()\n        self.s2k.halg = hash_alg\n", "        self.s2k.iv = iv = enc_alg.gen_iv()\n        self.s2k.halg = hash_alg\n",
+  more=[(FL, "enc_alg, bytes(self.s2k.iv)))", "enc_alg, bytes(iv)))")])
+ECDH_X = ("            v = x25519.X25519PrivateKey.generate()\n            x = v.public_key().public_bytes(encoding=serialization.Encoding.Raw, format=serialization.PublicFormat.Raw)\n"
+          "            ct.p = ECPoint.from_values(km.oid.key_size, ECPointFormat.Native, x)\n            s = v.exchange(km.__pubkey__())\n")
+T('C13', 'twin-ecdh-arm-helper', FL, ECDH_X, "            ct.p, s = cls._x25519_agree(km)\n",
+  more=[(FL, "    @classmethod\n    def encrypt(cls, pk, *args):\n        \"\"\"\n        For convenience, the synopsis of the encoding method is given below;",
+         "    @staticmethod\n    def _x25519_agree(keymat):\n        eph = x25519.X25519PrivateKey.generate()\n        raw = eph.public_key().public_bytes(encoding=serialization.Encoding.Raw, format=serialization.PublicFormat.Raw)\n"
+         "        point = ECPoint.from_values(keymat.oid.key_size, ECPointFormat.Native, raw)\n        return point, eph.exchange(keymat.__pubkey__())\n\n"
+         "    @classmethod\n    def encrypt(cls, pk, *args):\n        \"\"\"\n        For convenience, the synopsis of the encoding method is given below;")])
+
 KEYSIZE_TABLE = '        ks = {SymmetricKeyAlgorithm.IDEA: 128,\n              SymmetricKeyAlgorithm.TripleDES: 192,\n              SymmetricKeyAlgorithm.CAST5: 128,\n              SymmetricKeyAlgorithm.Blowfish: 128,\n              SymmetricKeyAlgorithm.AES128: 128,\n              SymmetricKeyAlgorithm.AES192: 192,\n              SymmetricKeyAlgorithm.AES256: 256,\n              SymmetricKeyAlgorithm.Twofish256: 256,\n              SymmetricKeyAlgorithm.Camellia128: 128,\n              SymmetricKeyAlgorithm.Camellia192: 192,\n              SymmetricKeyAlgorithm.Camellia256: 256}\n\n        if self in ks:\n            return ks[self]\n\n        raise NotImplementedError(repr(self))\n'
 T('C13', 'twin-keysize-if-chain', CO, KEYSIZE_TABLE,
   "        if self in (SymmetricKeyAlgorithm.IDEA, SymmetricKeyAlgorithm.CAST5, SymmetricKeyAlgorithm.Blowfish, SymmetricKeyAlgorithm.AES128, SymmetricKeyAlgorithm.Camellia128):\n            return 128\n\n"
@@ -277,6 +293,19 @@ M('C03', 'selection-loop-guard-skips-own-keyid', PGP, SEL2,
 M('C03', 'selection-first-pkesk', PGP, SEL, "        pkesk = [pk for pk in message._sessionkeys if isinstance(pk, PKESessionKey)][0]\n", 'C03.8')
 M('C03', 'selection-loop-no-class-filter', PGP, SEL,
   "        pkesk = None\n        for pk in message._sessionkeys:\n            if pk.pkalg == self.key_algorithm and pk.encrypter == self.fingerprint.keyid:\n                pkesk = pk\n                break\n", 'C03.8')
+
+T('C03', 'twin-seipd-bytes-of-mdc', PK, SEIPD_ENC,
+  "    def encrypt(self, key, alg, data):\n        iv = alg.gen_iv()\n        quick = iv[-2:]\n        sha = hashlib.new('SHA1')\n        for part in (iv, quick, data, b'\\xd3\\x14'):\n            sha.update(part)\n\n"
+  "        mdc = MDC()\n        mdc.mdc = binascii.hexlify(sha.digest())\n        mdc.update_hlen()\n\n        self.ct = _encrypt(iv + quick + data + bytes(mdc), key, alg)\n        self.update_hlen()\n")
+T('C03', 'twin-msg-encrypt-skesk-helper', PGP, "        skesk = SKESessionKeyV4()\n        skesk.s2k.usage = 255\n        skesk.s2k.specifier = 3\n        skesk.s2k.halg = hash_algo\n        skesk.s2k.encalg = cipher_algo\n        skesk.s2k.count = skesk.s2k.halg.tuned_count\n",
+  "        skesk = self._fresh_skesk(hash_algo, cipher_algo)\n",
+  more=[(PGP, "    def encrypt(self, passphrase, sessionkey=None, **prefs):\n        \"\"\"\n        encrypt(passphrase, [sessionkey=None,] **prefs)",
+         "    @staticmethod\n    def _fresh_skesk(digest, cipher):\n        esk = SKESessionKeyV4()\n        esk.s2k.usage = 255\n        esk.s2k.specifier = 3\n        esk.s2k.halg = digest\n        esk.s2k.encalg = cipher\n        esk.s2k.count = esk.s2k.halg.tuned_count\n        return esk\n\n"
+         "    def encrypt(self, passphrase, sessionkey=None, **prefs):\n        \"\"\"\n        encrypt(passphrase, [sessionkey=None,] **prefs)")])
+T('C03', 'twin-pkesk-decrypt-privkey-local', PK, "            ct = self.ct.me_mod_n.to_mpibytes()[2:]\n            ct = b'\\x00' * ((pk.keymaterial.__privkey__().key_size // 8) - len(ct)) + ct\n\n            decrypter = pk.keymaterial.__privkey__().decrypt\n            decargs = (ct, padding.PKCS1v15(),)\n",
+  "            priv = pk.keymaterial.__privkey__()\n            modlen = priv.key_size // 8\n            raw = self.ct.me_mod_n.to_mpibytes()[2:]\n            padded = b'\\x00' * (modlen - len(raw)) + raw\n\n            decrypter = priv.decrypt\n            decargs = (padded, padding.PKCS1v15())\n")
+T('C03', 'twin-ecdh-encrypt-direct-class', FL, "        padder = PKCS7(64).padder()\n        m = padder.update(_m) + padder.finalize()\n\n        km = pk.keymaterial\n        ct = cls()\n",
+  "        padder = PKCS7(64).padder()\n        m = padder.update(_m)\n        m += padder.finalize()\n\n        km = pk.keymaterial\n        ct = ECDHCipherText()\n")
 
 # =============================================================================================== C02
 M('C02', 'hash2-last-two', PGP, "        sig._signature.hash2 = bytearray(h2.digest()[:2])", "        sig._signature.hash2 = bytearray(h2.digest()[-2:])", 'C02.2')
